@@ -95,7 +95,7 @@ def run_jobs(fxv, rd, jobs, par=8):
             except Exception:
                 pass
         shutil.rmtree(d, ignore_errors=True)
-        return {"tag": tag, "trace": trace, "rc": rc, "info": info, "stderr": se[-1500:], "args": args}
+        return {"tag": tag, "trace": trace, "rc": rc, "info": info, "stderr": v.clip_stderr(se, 1500), "args": args}
     try:
         return v.parallel_map(one, jobs, jobs=par)
     finally:
